@@ -619,6 +619,9 @@ func (b *BitSet) ReadFrom(r io.Reader) (n int64, err error) {
 	if err != nil {
 		return
 	}
+	if Len < 0 {
+		return n, errors.New("bit set length less than zero")
+	}
 	if int(Len) > cap(*b) {
 		*b = make([]int64, Len)
 	} else {
